@@ -353,9 +353,17 @@ ADOPT = {
 """,
   "inserts": [
    {"at": r"^\s*return;", "pos": "before", "text": r"""        proof { assert(heap.view() =~= old(heap).view().insert(this.ptr, bump(old(heap).view()[this.ptr], ll(other.ptr)))); }"""},
-   {"at": r"\.insert\(Link::backward\(this\.ptr\)\);", "pos": "before", "text": r"""    proof { assert(fl(other.ptr) != bl(this.ptr)); assert(cnt($RECV@, bl(this.ptr)) == cnt(old(heap).table(other.ptr), bl(this.ptr))); }"""},
+   # order-agnostic hints (a refactor that records the backward link first must stay green): the two keys differ, so
+   # neither insertion changes the other key's count
+   {"at": r"\.insert\(Link::(forward|backward)\(", "nth": "all", "pos": "before", "text": r"""    proof {
+        assert(fl(other.ptr) != bl(this.ptr));
+        assert(cnt($RECV@, bl(this.ptr)) == cnt(old(heap).table(other.ptr), bl(this.ptr)) || cnt($RECV@, fl(other.ptr)) == cnt(old(heap).table(this.ptr), fl(other.ptr)));
+    }"""},
   ],
-  "body_end": r"""    proof { assert(heap.view() =~= adopt_spec(old(heap).view(), this.ptr, other.ptr)); }""",
+  "body_end": r"""    proof {
+        lemma_adopt_spec_commutes(old(heap).view(), this.ptr, other.ptr);
+        assert(heap.view() =~= adopt_spec(old(heap).view(), this.ptr, other.ptr));
+    }""",
  },
  "unadopt": {
   "params": ["this", "other"],
@@ -368,7 +376,11 @@ ADOPT = {
   "inserts": [
    {"at": r"^\s*return;", "pos": "before", "text": r"""        proof { assert(heap.view() =~= old(heap).view().insert(this.ptr, unbump(old(heap).view()[this.ptr], ll(other.ptr)))); }"""},
   ],
-  "body_end": r"""    proof { assert(heap.view() =~= unadopt_spec(old(heap).view(), this.ptr, other.ptr)); }""",
+  "body_end": r"""    proof {
+        lemma_adopt_spec_commutes(old(heap).view(), this.ptr, other.ptr);
+        assert(fl(other.ptr) != bl(this.ptr));
+        assert(heap.view() =~= unadopt_spec(old(heap).view(), this.ptr, other.ptr));
+    }""",
  },
 }
 
